@@ -586,7 +586,7 @@ def content_small_scope(repo, tier):
     return {"obligations": [o]}
 
 
-EXTRA = [content_small_scope, file_metadata_defaults, FLOW.image_constructor_sites, FLOW.field_store_sites, FLOW.chr_sites, FLOW.decode_sites, FLOW.literal_sites, FLOW.metadata_freshness_sites, META.metadata_readers, native_sweep]
+EXTRA = [content_small_scope, file_metadata_defaults, FLOW.image_constructor_sites, FLOW.field_store_sites, FLOW.chr_sites, FLOW.decode_sites, FLOW.literal_sites, FLOW.metadata_freshness_sites, FLOW.unit_number_sites, META.metadata_readers, native_sweep]
 REPLAY_UNKNOWN = True     # obligations left `unknown` are searched natively (replay/C04.py); only a reproduced failing input is a violation
 TRUSTED = [
     "strings returned by third-party parsers (xml.etree / defusedxml, openpyxl, pypdf, olefile, xlrd, charset_normalizer, html.parser, "
